@@ -47,8 +47,10 @@ func die2(f string, a ...interface{}) {
 	os.Exit(2)
 }
 
-// buildWorker compiles the worker test binary against /repo's current working tree.
-func buildWorker(tag string, race bool) string {
+// buildWorker compiles the worker test binary against /repo's current working tree. instrument: the worker is built
+// against a scratch copy of the tree in which package neat/genetics carries statement-level yield points (cmd/instr);
+// the copy lives under .build only for the duration of the build.
+func buildWorker(tag string, race bool, instrument ...bool) string {
 	_ = os.MkdirAll(filepath.Join(verifDir, ".build"), 0o755)
 	name := "worker-" + tag
 	if race {
@@ -58,6 +60,11 @@ func buildWorker(tag string, race bool) string {
 	args := []string{"test", "-c", "-tags", "verif", "-o", outPath}
 	if race {
 		args = append(args, "-race")
+	}
+	if len(instrument) > 0 && instrument[0] {
+		modfile, cleanup := instrumentedCopy(name)
+		defer cleanup()
+		args = append(args, "-modfile="+modfile)
 	}
 	args = append(args, "./worker")
 	cmd := exec.Command(goTool(), args...)
@@ -69,6 +76,56 @@ func buildWorker(tag string, race bool) string {
 		die2("cannot build the worker from %s: %v\n%s", sim.RepoDir, err, buf.String())
 	}
 	return outPath
+}
+
+func mustRun(dir string, name string, args ...string) string {
+	cmd := exec.Command(name, args...)
+	cmd.Dir = dir
+	cmd.Env = env()
+	out, err := cmd.CombinedOutput()
+	if err != nil {
+		die2("%s %v: %v\n%s", name, args, err, out)
+	}
+	return string(out)
+}
+
+// instrumentedCopy copies the library sources of the tree under test to .build, inserts the statement-level yield
+// points and writes a go.mod for the harness that points at the copy. It returns the modfile and a cleanup function.
+func instrumentedCopy(name string) (string, func()) {
+	base := filepath.Join(verifDir, ".build", fmt.Sprintf("instr-%s-%d", name, os.Getpid()))
+	copyDir := filepath.Join(base, "repo")
+	cleanup := func() { _ = os.RemoveAll(base) }
+	_ = os.RemoveAll(base)
+	if err := os.MkdirAll(copyDir, 0o755); err != nil {
+		die2("cannot create %s: %v", copyDir, err)
+	}
+	for _, part := range []string{"go.mod", "go.sum", "executor.go", "neat", "experiment"} {
+		mustRun("/", "cp", "-r", filepath.Join(sim.RepoDir, part), copyDir+"/")
+	}
+	instrBin := filepath.Join(base, "instr")
+	mustRun(simDir, goTool(), "build", "-o", instrBin, "./cmd/instr")
+	out := mustRun(simDir, instrBin, filepath.Join(copyDir, "neat", "genetics"))
+	if !strings.Contains(out, "yield points inserted") {
+		die2("instr produced no report: %s", out)
+	}
+	mod, err := os.ReadFile(filepath.Join(simDir, "go.mod"))
+	if err != nil {
+		die2("cannot read the harness go.mod: %v", err)
+	}
+	lines := strings.Split(string(mod), "\n")
+	for i, l := range lines {
+		if strings.HasPrefix(l, "replace github.com/yaricom/goNEAT/v4 =>") {
+			lines[i] = "replace github.com/yaricom/goNEAT/v4 => " + copyDir
+		}
+	}
+	modfile := filepath.Join(base, "go.mod")
+	if err := os.WriteFile(modfile, []byte(strings.Join(lines, "\n")), 0o644); err != nil {
+		die2("cannot write %s: %v", modfile, err)
+	}
+	if sum, err := os.ReadFile(filepath.Join(simDir, "go.sum")); err == nil {
+		_ = os.WriteFile(filepath.Join(base, "go.sum"), sum, 0o644)
+	}
+	return modfile, cleanup
 }
 
 type workerResult struct {
@@ -272,7 +329,7 @@ func check(prop, tier string) int {
 	}
 	seed := seedFromEnv()
 	known := loadKnown()
-	bin := buildWorker(prop+"-"+tier, scn.Race)
+	bin := buildWorker(prop+"-"+tier, scn.Race, scn.Instrument)
 	defer os.Remove(bin)
 	runs := scn.QuickRuns
 	if tier == "thorough" {
@@ -466,7 +523,7 @@ func finishCrashOrRace(bin string, scn *sim.Scenario, rf *ReplayFile, known []si
 	// the tape of run idx is a pure function of (seed, property, idx): record it with a build without the race detector
 	tapeBin := bin
 	if scn.Race {
-		tapeBin = buildWorker(rf.Property+"-tape", false)
+		tapeBin = buildWorker(rf.Property+"-tape", false, scn.Instrument)
 		defer os.Remove(tapeBin)
 	}
 	// record mode replays: ask the worker for the tape through a traced replay of the recorded run
@@ -559,7 +616,7 @@ func replay(path string) int {
 	if scn == nil {
 		die2("no scenario for %s", rf.Property)
 	}
-	bin := buildWorker(rf.Property+"-replay", scn.Race)
+	bin := buildWorker(rf.Property+"-replay", scn.Race, scn.Instrument)
 	defer os.Remove(bin)
 	known := loadKnown()
 	job := &sim.Job{Mode: "replay", Prop: rf.Property, Tier: rf.Tier, Seed: rf.Seed, Tape: rf.Tape, Known: known, Trace: os.Getenv("VERIF_TRACE") != ""}
@@ -707,7 +764,7 @@ func selftest(args []string) int {
 		if scn == nil {
 			die2("no scenario %s", prop)
 		}
-		bin := buildWorker(prop+"-selftest", false)
+		bin := buildWorker(prop+"-selftest", false, scn.Instrument)
 		var ref string
 		for _, gmp := range []string{"1", "4", "16", "1"} {
 			os.Setenv("VERIF_WORKER_GOMAXPROCS", gmp)
